@@ -484,14 +484,14 @@ func TestPropBadEndpoint(t *testing.T) {
 	rec := ev.Get("bad_endpoint")
 	rapid.Check(t, func(t *rapid.T) {
 		sc := scenario{
-			behaviour: rapid.SampledFrom([]string{"absent", "blackhole", "throttled", "healthy", "closing"}).Draw(t, "behaviour"),
+			behaviour: rapid.SampledFrom([]string{"absent", "blackhole", "throttled", "healthy", "closing", "closing"}).Draw(t, "behaviour"),
 			rtype:     rapid.SampledFrom([]string{"sendAllMatch", "sendFirstMatch", "consistentHashing"}).Draw(t, "rtype"),
 			connbuf:   rapid.SampledFrom([]int{0, 1, 10, 100, 1000}).Draw(t, "connbuf"),
 			iobuf:     rapid.SampledFrom([]int{16, 256, 4096, 65536}).Draw(t, "iobuf"),
 			flush:     time.Duration(rapid.SampledFrom([]int{1, 10, 100}).Draw(t, "flushMs")) * time.Millisecond,
 			volume:    rapid.SampledFrom([]int{1, 2, 4, 8}).Draw(t, "volumeMB") << 20,
 			lineLen:   rapid.SampledFrom([]int{30, 70, 200}).Draw(t, "linelen"),
-			closeAt:   int64(rapid.SampledFrom([]int{1, 100, 5000, 200000, 1000000}).Draw(t, "closeAfter")),
+			closeAt:   int64(rapid.SampledFrom([]int{1, 100, 5000, 200000, 1000000, 3000000}).Draw(t, "closeAfter")),
 			spool:     rapid.Bool().Draw(t, "spool"),
 			throttle:  rapid.SampledFrom([]int{4096, 16384, 65536}).Draw(t, "throttle"),
 		}
